@@ -162,6 +162,14 @@ fn check_error_value(e: &darling::Error, leaves: &[ObsLeaf], out: &mut Vec<Failu
     if once != twice {
         out.push(fail("C03.R7", format!("flatten twice differs from flatten once: {:?} vs {:?}", once, twice)));
     }
+    // C03.R9: an explicit span belongs to the text this run parsed, never to an earlier input of the thread
+    for l in e.clone().flatten() {
+        if let Some(sp) = l.explicit_span() {
+            if world::foreign_span(sp) {
+                out.push(fail("C03.R9", format!("leaf `{}` carries a span ({:?}) that is not part of this input: it belongs to something parsed earlier on this thread", l, sp)));
+            }
+        }
+    }
     let syn_errs: Vec<(String, Range)> = syn::Error::from(e.clone()).into_iter().map(|s| (s.to_string(), world::range_of(s.span()))).collect();
     if syn_errs.len() != leaves.len() {
         out.push(fail("C03.R7", format!("{} compiler diagnostics for {} leaves", syn_errs.len(), leaves.len())));
@@ -465,6 +473,8 @@ pub fn run(sc: &Scenario, recvs: &'static BTreeMap<&'static str, RecvDesc>) -> J
     });
     let mut tokens = BTreeMap::new();
     collect_tokens(di.to_token_stream(), &mut tokens);
+    // tokens are keyed by position: the first and the last one bound the text
+    world::set_input_bytes(tokens.values().next().copied().into_iter().chain(tokens.values().next_back().copied()));
     world::reset(&sc.env, items, parts, tokens);
 
     // expectation
